@@ -39,7 +39,7 @@ CHARTS = {
 }
 CHART_LISTS = [[], ["blank"], ["meta"], ["holds"], ["blank", "meta"], ["holds", "blank"]]
 SIM_TEMPLATES = ["none", "empty", "blank", "edited", "withchart"]
-CHART_TEMPLATES = ["none", "empty", "blank", "extra"]
+CHART_TEMPLATES = ["none", "empty", "blank", "extra", "emptytiming"]
 
 
 def source_model(opt_idx, mand, chart_list, rotate=0):
@@ -90,6 +90,11 @@ def chart_template(kind):
         if k != "NOTES":
             c[k] = v
     c["CREDIT"] = "me"
+    if kind == "emptytiming":
+        # timing keys that are present but empty: by the split-timing rule such a chart has no timing of its own
+        c["STOPS"] = ""
+        c["WARPS"] = ""
+        c["BPMS"] = ""
     c["NOTES"] = ""
     return c
 
@@ -256,7 +261,8 @@ def check_corpus(st, ct):
 def template_pairs(level):
     if level == "full":
         return [(s, c) for s in SIM_TEMPLATES for c in CHART_TEMPLATES]
-    return [("none", "none"), ("empty", "empty"), ("blank", "extra"), ("edited", "blank"), ("withchart", "none"), ("empty", "extra")]
+    return [("none", "none"), ("empty", "empty"), ("blank", "extra"), ("edited", "blank"), ("withchart", "none"), ("empty", "extra"),
+            ("blank", "emptytiming"), ("edited", "emptytiming")]
 
 
 def explore_shard(acc, shard):
@@ -369,12 +375,12 @@ def explore(run):
     acc = run.acc
     run.rule = (
         f"construction tree over subsets of <= {max_opt} of {len(OPTIONAL)} optional source properties (incl. ANIMATIONS alias, SSC-only keys already present, unknown and key-only keys) on top of OFFSET/BPMS/STOPS in 2 spellings each, "
-        f"x chart lists {CHART_LISTS} x simfile templates {SIM_TEMPLATES} x chart templates {CHART_TEMPLATES} (full template product for small subsets, 6 pairs otherwise); "
-        "negative BPM/stop sources x templates; the corpus SM file x all 20 template pairs. Non-trivial = source with charts and a caller template."
+        f"x chart lists {CHART_LISTS} x simfile templates {SIM_TEMPLATES} x chart templates {CHART_TEMPLATES} (full template product for small subsets, 8 pairs otherwise); "
+        "negative BPM/stop sources x templates; the corpus SM file x all 25 template pairs. Non-trivial = source with charts and a caller template."
     )
     run.assumptions = [
         "mc/models/convert.py states the expected result; the blank templates' content is read from the library",
-        "key order of the result is not claimed; chart templates carry no timing properties",
+        "key order of the result is not claimed; chart templates carry no timing values (one carries empty timing keys)",
         "a FREEZES source is a known finding probed separately",
     ]
     core.require(acc.outcomes["empty caller template"] > 0, "no empty template")
